@@ -23,8 +23,10 @@
    path that is not a namespace; in dual mode a deregistered root table stays visible through the
    directory fallback (dir.rs test_deregister_table says so), so its id is "limbo" afterwards.
 
-   Failures are collected in `bad`; an id / path whose answer was wrong once is not judged again
-   in that scenario (one defect, one report).                                        *)
+   Failures are collected in `bad` as <<position, scenario, step, operation, property, deviation,
+   what, cause, probing call>>: `cause` is read off the names involved, `deviation` is the as-built
+   deviation of spec/Namespace.tla that explains such an answer ("none" = unexplained).  An id / path
+   whose answer was wrong once is not judged again in that scenario (one defect, one report).   *)
 EXTENDS Naturals, Integers, Sequences, SequencesExt, FiniteSets, TLC, Json, IOUtils
 
 Rec == ndJsonDeserialize(IOEnv.TRACE)
@@ -32,11 +34,12 @@ N   == Len(Rec)
 
 VARIABLES l, bad, cnt,
           m,        \* the map: id -> [kind, loc]
-          limT, limN, limP,   \* ids / paths no longer judged (table probes, namespace probes, listings)
+          limT, limN, limP,   \* ids / paths whose probes are no longer judged (table probes, namespace probes, listings)
+          unk,      \* ids whose status the map no longer knows (dual-mode directory fallback, a call answered against the map)
           prev,     \* previous observation
           meta,     \* [mode, special, alias, quoted, dollar, slashed, nonascii]
           scn
-tvars == <<l, bad, cnt, m, limT, limN, limP, prev, meta, scn>>
+tvars == <<l, bad, cnt, m, limT, limN, limP, unk, prev, meta, scn>>
 
 SeqToSet(s) == {s[i] : i \in 1..Len(s)}
 Kind(c, id) == IF id \in DOMAIN c THEN c[id].kind ELSE "none"
@@ -61,26 +64,35 @@ DirOffers(op, id) ==
 
 HasName(id, S) == \E i \in 1..Len(id) : id[i] \in S
 Aliased(x, y) == \E i \in 1..Len(meta.alias) : meta.alias[i] = <<x, y>>
-\* why an answer about `id` can be wrong, told from the names involved (the step's subject included):
-\* the first that applies of: the "$"-joined text of the id coincides with that of an object in the catalog /
-\* of the subject; a quote in a name; a "$" in a name; a "/" in a name; a non-ASCII letter; another special
-\* character; an object of the other kind has this very id; none of these
-Cause(c, id, subj) ==
+\* Why an answer about `id` can be wrong, told from the names involved (the step's subject included); the first
+\* that applies of: a "yes" about an id that holds an object of the other kind; the "$"-joined text of the id
+\* coincides with that of an object in the catalog / of the subject; a quote in a name; a "$" in a name; a "/" in
+\* a name; a non-ASCII letter; another special character; none of these.
+Cause(c, id, subj, yes) ==
   LET both == {id, subj} IN
-  IF \E x \in (DOMAIN c \cup {subj}) : Aliased(id, x) THEN "delimiter-alias"
+  IF yes /\ id \in DOMAIN c THEN "other-kind-same-id"
+  ELSE IF \E x \in (DOMAIN c \cup {subj}) : Aliased(id, x) THEN "delimiter-alias"
   ELSE IF \E y \in both : HasName(y, SeqToSet(meta.quoted)) THEN "quoted-name"
   ELSE IF HasName(id, SeqToSet(meta.dollar)) THEN "delimiter-name"
   ELSE IF HasName(id, SeqToSet(meta.slashed)) THEN "path-like-name"
   ELSE IF HasName(id, SeqToSet(meta.nonascii)) THEN "non-ascii-name"
   ELSE IF HasName(id, SeqToSet(meta.special)) THEN "special-name"
-  ELSE IF id \in DOMAIN c THEN "other-kind-same-id"
   ELSE "plain-name"
 ListCause(c, p, names, subj) ==
-  LET cs == {Cause(c, p \o <<n>>, subj) : n \in names} IN
-  IF cs = {} THEN Cause(c, p, subj)
+  LET cs == {Cause(c, p \o <<n>>, subj, FALSE) : n \in names} IN
+  IF cs = {} THEN Cause(c, p, subj, FALSE)
   ELSE IF "delimiter-alias" \in cs THEN "delimiter-alias"
   ELSE IF \E x \in cs : x # "plain-name" THEN CHOOSE x \in cs : x # "plain-name"
-  ELSE Cause(c, p, subj)
+  ELSE Cause(c, p, subj, FALSE)
+\* the as-built deviation of spec/Namespace.tla that explains a wrong answer of this kind ("none": unexplained)
+DevOf(what, cause) ==
+  CASE cause \in {"delimiter-alias", "delimiter-name"} -> "DelimiterNameAccepted"
+    [] cause = "quoted-name" -> "QuoteNameInterpolated"
+    [] cause \in {"path-like-name", "non-ascii-name"} -> "PathEncodingMismatch"
+    [] cause = "page-cut-at-limit-without-token" -> "PageTruncatedNoToken"
+    [] what = "failed-call-changed-answer" -> "FailedCallNotRolledBack"
+    [] cause = "other-kind-same-id" -> "KindBlindLookup"
+    [] OTHER -> "none"
 
 (***************************************************************************)
 (* What the map answers to a call                                          *)
@@ -90,7 +102,7 @@ Exp(c, st) ==
   LET op == st.op id == IF op = "reopen" THEN <<>> ELSE st.id IN
   IF op = "reopen" THEN "ok"
   ELSE IF meta.mode = "dir" /\ ~DirOffers(op, id) THEN "err"
-  ELSE IF Touches(id, limT \cup limN) THEN "either"
+  ELSE IF Touches(id, unk) THEN "either"
   ELSE CASE op = "create_ns" -> IF id = <<>> \/ id \in DOMAIN c THEN "err" ELSE IF ParentsOK(c, id) THEN "ok" ELSE "either"
          [] op = "drop_ns" -> IF Kind(c, id) = "ns" /\ ~HasChild(c, id) THEN "ok" ELSE "err"
          [] op \in TableCreateOps -> IF Kind(c, id) = "table" THEN "idem" ELSE IF id \in DOMAIN c THEN "err"
@@ -155,24 +167,26 @@ Step(e) ==
       subj == IF op = "reopen" THEN <<"?reopen">> ELSE st.id
       ok == e.res = "ok"
       obs == e.obs
-      ent(inv, what, cause, call) == <<l, e.scn, e.i, op, inv, what, cause, call>>
+      ent(inv, what, cause, call) == <<l, e.scn, e.i, op, inv, DevOf(what, cause), what, cause, call>>
       exp == Exp(m, st)
       special == op # "reopen" /\ HasName(subj, SeqToSet(meta.special))
       \* 1. the call's own answer
       refused == exp = "ok" /\ ~ok
       resBad == IF e.res \in {"panic", "timeout"} THEN {ent("CatalogIsMap", e.res, "", op)}
-                ELSE IF refused /\ ~special THEN {ent("CatalogIsMap", "refused-valid-call", Cause(m, subj, subj), op)}
-                ELSE IF exp = "err" /\ ok THEN {ent("CatalogIsMap", AcceptClass(m, st), Cause(m, subj, subj), op)}
+                ELSE IF refused /\ ~special THEN {ent("CatalogIsMap", "refused-valid-call", Cause(m, subj, subj, FALSE), op)}
+                ELSE IF exp = "err" /\ ok THEN {ent("CatalogIsMap", AcceptClass(m, st), Cause(m, subj, subj, TRUE), op)}
                 ELSE {}
       \* 2. the map after the call (an accepted call is applied even when the map would have refused it)
       m2 == IF ok /\ op # "reopen" THEN Apply(m, st, e.out) ELSE m
       locBad == IF ok /\ exp = "ok" /\ op \in {"drop_table", "deregister_table"} /\ e.out.rel # m[subj].loc
-                THEN {ent("CatalogIsMap", "returns-another-location", Cause(m, subj, subj), op)} ELSE {}
+                THEN {ent("CatalogIsMap", "returns-another-location", Cause(m, subj, subj, FALSE), op)} ELSE {}
       \* dual mode: a deregistered root table stays visible through the directory fallback (documented)
       dualLimbo == IF ok /\ op = "deregister_table" /\ meta.mode = "dual" /\ Len(subj) = 1 THEN {subj} ELSE {}
-      \* an accepted call the map refuses (e.g. drop_namespace on a table id) is reported once; its subject is not judged again
-      limT1 == limT \cup dualLimbo \cup (IF resBad # {} /\ op # "reopen" THEN {subj} ELSE {})
-      limN1 == limN \cup (IF resBad # {} /\ op # "reopen" THEN {subj} ELSE {})
+      \* a call answered against the map (e.g. drop_namespace accepted on a table id) is reported once; what its subject
+      \* is afterwards is unknown; so is the subject of any call on an id of unknown status
+      lost == dualLimbo \cup (IF op # "reopen" /\ (resBad # {} \/ Touches(subj, unk)) THEN {subj} ELSE {})
+      limT1 == limT \cup lost
+      limN1 == limN \cup lost
       \* 3. probes
       created == ok /\ op \in CreateOps
       tJudged == {i \in 1..Len(obs.t) : obs.t[i].id \notin limT1}
@@ -188,14 +202,14 @@ Step(e) ==
                    w == TWhat(m2, pr)
                    pv == FindT(prev, pr.id)
                    ch == pv.ex # pr.ex \/ pv.de # pr.de \/ pv.loc # pr.loc IN
-               ent(InvOf(pr.id, "table", ch), WhatOf(pr.id, w, ch), Cause(m2, pr.id, subj),
+               ent(InvOf(pr.id, "table", ch), WhatOf(pr.id, w, ch), Cause(m2, pr.id, subj, w \in {"exists-says-yes", "describe-says-yes"}),
                    IF w \in {"exists-says-no", "exists-says-yes"} THEN "table_exists" ELSE "describe_table")
                : i \in tWrong}
       nBad == {LET pr == obs.n[i]
                    w == NWhat(m2, pr)
                    pv == FindN(prev, pr.id)
                    ch == pv.ex # pr.ex \/ pv.de # pr.de IN
-               ent(InvOf(pr.id, "ns", ch), WhatOf(pr.id, w, ch), Cause(m2, pr.id, subj),
+               ent(InvOf(pr.id, "ns", ch), WhatOf(pr.id, w, ch), Cause(m2, pr.id, subj, w \in {"exists-says-yes", "describe-says-yes"}),
                    IF w \in {"exists-says-no", "exists-says-yes"} THEN "namespace_exists" ELSE "describe_namespace")
                : i \in nWrong}
       LBad(ls, k, call) ==
@@ -232,6 +246,7 @@ Step(e) ==
   IN
   /\ bad' = AddBad(allBad)
   /\ m' = m2
+  /\ unk' = unk \cup lost
   /\ limT' = limT1 \cup {obs.t[i].id : i \in tWrong}
   /\ limN' = limN1 \cup {obs.n[i].id : i \in nWrong}
   /\ limP' = limP \cup {obs.lt[i].id : i \in {j \in 1..Len(obs.lt) : obs.lt[j].id \notin limP /\ LWhat(m2, obs.lt[j], "table", limT1) # ""}}
@@ -255,12 +270,12 @@ Step(e) ==
   /\ UNCHANGED <<meta, scn>>
 
 Reset(e) ==
-  /\ m' = <<>> /\ limT' = {} /\ limN' = {} /\ limP' = {}
+  /\ m' = <<>> /\ limT' = {} /\ limN' = {} /\ limP' = {} /\ unk' = {}
   /\ prev' = e.obs
   /\ meta' = [mode |-> e.mode, special |-> e.meta.special, alias |-> e.meta.alias, quoted |-> e.meta.quoted,
               dollar |-> e.meta.dollar, slashed |-> e.meta.slashed, nonascii |-> e.meta.nonascii]
   /\ scn' = e.scn
-  /\ bad' = IF e.build = "ok" THEN bad ELSE AddBad({<<l, e.scn, 0, "build", "CatalogIsMap", "namespace-cannot-be-built", e.mode, "build">>})
+  /\ bad' = IF e.build = "ok" THEN bad ELSE AddBad({<<l, e.scn, 0, "build", "CatalogIsMap", "none", "namespace-cannot-be-built", e.mode, "build">>})
   /\ cnt' = [cnt EXCEPT !["scenarios"] = @ + 1, ![e.mode] = @ + 1]
 
 Counters == {"scenarios", "dir", "manifest", "dual", "ok_steps", "probes_judged", "probes_existing", "paged_listings", "multi_page_listings",
@@ -269,7 +284,7 @@ Counters == {"scenarios", "dir", "manifest", "dual", "ok_steps", "probes_judged"
              "create_ns", "drop_ns", "describe_ns", "ns_exists", "list_ns", "create_table", "create_empty_table", "drop_table",
              "register_table", "deregister_table", "describe_table", "table_exists", "list_tables", "reopen"}
 Init == /\ l = 1 /\ bad = <<>> /\ cnt = [c \in Counters |-> 0]
-        /\ m = <<>> /\ limT = {} /\ limN = {} /\ limP = {}
+        /\ m = <<>> /\ limT = {} /\ limN = {} /\ limP = {} /\ unk = {}
         /\ prev = [t |-> <<>>, n |-> <<>>, lt |-> <<>>, ln |-> <<>>]
         /\ meta = [mode |-> "", special |-> <<>>, alias |-> <<>>, quoted |-> <<>>, dollar |-> <<>>, slashed |-> <<>>, nonascii |-> <<>>]
         /\ scn = 0
